@@ -325,6 +325,9 @@ def guarded_run(prop, case):
         if isinstance(case, dict) and case.get("copts_noise"):
             # connect() options that should make no difference to this property (the scenario's own ones win)
             simnet.CASE_COPTS = dict(case["copts_noise"])
+        if isinstance(case, dict) and case.get("connect_positional"):
+            # the application passes its connect() options positionally, in the documented order
+            simnet.CASE_POSITIONAL = True
         if isinstance(case, dict) and case.get("wsopts_noise"):
             # WebSocket() constructor arguments that should make no difference to this property
             simnet.CASE_WSOPTS = dict(case["wsopts_noise"])
@@ -363,6 +366,7 @@ def guarded_run(prop, case):
         simnet.CASE_COMPANION = None
         simnet.CASE_COPTS = None
         simnet.CASE_WSOPTS = None
+        simnet.CASE_POSITIONAL = False
         simnet.CASE_NOISE = None
         if debug_log:
             debug_log[0].removeHandler(_SINK)
